@@ -211,7 +211,10 @@ def compile_col_expr(
                 descending=descending,
                 nulls_last=[nl if nl is not None else False for nl in nulls_last],
             )
-            value = value.sort_by(inv_permutation)
+            # (not `value.sort_by(inv_permutation)`: the polars optimizer drops a trailing
+            # `sort_by` if the frame comes from a join / group_by / union and goes into
+            # a sort / group_by / join, which would pair the values with the wrong rows)
+            value = value.gather(inv_permutation.arg_sort())
 
         return value
 
